@@ -5,6 +5,8 @@ pub fn gen_case(profile: &str, rng: &mut Rng, out: &mut String) -> bool {
     match profile {
         "C01" => super::c01::gen_case(rng, out, false),
         "C07" => super::c01::gen_case(rng, out, true),
+        "C10" => super::c10::gen_case(rng, out),
+        "C12" => super::c12::gen_case(rng, out),
         _ => return false,
     }
     true
